@@ -131,4 +131,62 @@ theorem translateNamed_reg_ext (cfg : Cfg) (r1 r2 : List (Str × Str)) (h : ∀ 
   | none => rfl
   | some t => exact translate_reg_ext cfg r1 r2 h ctx defaultFuel t
 
+/-! ### several instances: an operation touches the addressed instance only -/
+
+theorem instGet_instSet (w : List (String × Inst)) (j i : String) (x : Inst) :
+    instGet (instSet w j x) i = if j = i then some x else instGet w i := by
+  induction w with
+  | nil => simp [instSet, instGet]
+  | cons p r ih =>
+    obtain ⟨k, v⟩ := p
+    by_cases h1 : k = j
+    · subst h1
+      by_cases h2 : k = i <;> simp [instSet, instGet, h2]
+    · by_cases h2 : k = i
+      · subst h2
+        have : ¬ j = k := fun e => h1 e.symm
+        simp [instSet, instGet, h1, this]
+      · simp [instSet, instGet, h1, h2, ih]
+
+theorem instGet_worldStep (w : List (String × Inst)) (p : String × InstOp) (i : String) :
+    instGet (worldStep w p) i = if p.1 = i then ownStep (instGet w p.1) p.2 else instGet w i := by
+  obtain ⟨j, op⟩ := p
+  unfold worldStep ownStep
+  cases op with
+  | create s f es => simp [instGet_instSet]
+  | setStrict b =>
+    cases h : instGet w j with
+    | none =>
+      by_cases e : j = i
+      · subst e; simp [h]
+      · simp [e]
+    | some x => simp [instGet_instSet]
+  | setFilters f =>
+    cases h : instGet w j with
+    | none =>
+      by_cases e : j = i
+      · subst e; simp [h]
+      · simp [e]
+    | some x => simp [instGet_instSet]
+  | reg o =>
+    cases h : instGet w j with
+    | none =>
+      by_cases e : j = i
+      · subst e; simp [h]
+      · simp [e]
+    | some x => simp [instGet_instSet]
+
+/-- after any interleaved history over any number of instances, instance `i` is in the state its OWN operations
+    (in their order) lead to -/
+theorem instGet_worldRun (ops : List (String × InstOp)) (w : List (String × Inst)) (i : String) :
+    instGet (worldRun w ops) i = ((ops.filter (fun p => p.1 = i)).map (·.2)).foldl ownStep (instGet w i) := by
+  induction ops generalizing w with
+  | nil => simp [worldRun]
+  | cons p r ih =>
+    have : worldRun w (p :: r) = worldRun (worldStep w p) r := by simp [worldRun]
+    rw [this, ih, instGet_worldStep]
+    by_cases h : p.1 = i
+    · simp [h]
+    · simp [h]
+
 end Operon.Ribosome
